@@ -573,6 +573,8 @@ def run(ctx: Ctx) -> None:
     N = ctx.n(400, 5000)
     n_mpl = 2
     for i in range(N):
+        if ctx.out_of_time():
+            break
         prog, root = gen_program(ctx, rng)
         features(ctx, prog, root)
         # which objects exist, and with how many usable modes
